@@ -495,10 +495,10 @@ def _only_throws(br):
 
 
 def _only_returns_false(br):
-    s = br
-    while s is not None and s.kind == 'CompoundStmt' and len([k for k in s.kids if k is not None]) == 1:
-        s = [k for k in s.kids if k is not None][0]
-    return s is not None and s.kind == 'ReturnStmt' and bool(s.kids) and const_eval(s.kids[0]) is False
+    from .rules.common import effective_stmts
+    es = effective_stmts(br)
+    return len(es) == 1 and es[0].kind == 'ReturnStmt' and bool(es[0].kids) and \
+        const_eval(es[0].kids[0]) is False
 
 
 def _post_calls(e):
